@@ -8,14 +8,14 @@ package absnfs
 
 // fattr3 on the wire: 84 bytes; type, ids, size and fileid are the attribute record's
 //@ func encodeFileAttributes
-//@ prop C04 C14 C23
+//@ prop C04 C23
 //@ requires attrs != nil
 //@ modifies wlen, wdata
-//@ ensures [frame] appendFrame(valof(w), old(wlen[valof(w)])) && wlen[valof(w)] >= old(wlen[valof(w)])
-//@ ensures [fattr3-84-bytes] isnil(result) ==> wlen[valof(w)] == old(wlen[valof(w)]) + 84
-//@ ensures [type-from-mode] isnil(result) ==> be32(wdata[valof(w)], old(wlen[valof(w)])) == ftypeOf(attrs.Mode)
+//@ ensures [frame] {C04, C14, C23} appendFrame(valof(w), old(wlen[valof(w)])) && wlen[valof(w)] >= old(wlen[valof(w)])
+//@ ensures [fattr3-84-bytes] {C04, C14, C23} isnil(result) ==> wlen[valof(w)] == old(wlen[valof(w)]) + 84
+//@ ensures [type-from-mode] {C04, C14, C23} isnil(result) ==> be32(wdata[valof(w)], old(wlen[valof(w)])) == ftypeOf(attrs.Mode)
 //@ ensures [perm-bits] isnil(result) ==> be32(wdata[valof(w)], old(wlen[valof(w)]) + 4) == attrs.Mode & 511
 //@ ensures [owner] isnil(result) ==> be32(wdata[valof(w)], old(wlen[valof(w)]) + 12) == attrs.Uid && be32(wdata[valof(w)], old(wlen[valof(w)]) + 16) == attrs.Gid
 //@ ensures [size] isnil(result) ==> be64(wdata[valof(w)], old(wlen[valof(w)]) + 20) == uint64(attrs.Size)
 //@ ensures [fileid] isnil(result) ==> be64(wdata[valof(w)], old(wlen[valof(w)]) + 52) == attrs.FileId
-//@ ensures [buffer-never-fails] typeof(w) == typeid(*bytes.Buffer) ==> isnil(result)
+//@ ensures [buffer-never-fails] {C04, C14, C23} typeof(w) == typeid(*bytes.Buffer) ==> isnil(result)
